@@ -654,6 +654,35 @@ class Prop(object):
                 except Exception as e:
                     verdict = 'verify-error:' + type(e).__name__
                 self._judge(r, 'free' if free else 'different', verdict, dict(tags, grp='cleartext-line-end'), dict(case), 'cleartext message with %s' % mname)
+        # --- inside a key: a certification made over one spelling of a name does not cover another spelling with other octets (Unicode normalisation
+        # forms, compatibility characters): the signed subject is the octets of the user id packet
+        import unicodedata
+        for ncase, (signed_text, carried_text) in enumerate((('Jos\u00e9 Garc\u00eda <jose@example.es>', 'Jose\u0301 Garci\u0301a <jose@example.es>'),
+                                                             ('Jose\u0301 Garci\u0301a <jose@example.es>', 'Jos\u00e9 Garc\u00eda <jose@example.es>'),
+                                                             ('\u00c5ngstr\u00f6m <a@example.se>', '\u212bngstro\u0308m <a@example.se>'),
+                                                             ('\ud55c\uae00 <h@example.kr>', unicodedata.normalize('NFD', '\ud55c\uae00') + ' <h@example.kr>'))):
+            pbody = rkeys.public_body(raw)
+            hashed = rsig.sp_created(S.SIG_T) + rsig.sp_issuer_fpr(rkeys.fingerprint(raw)) + wire.subpacket(27, b'\x03')
+            try:
+                sc = rsig.make(raw, 0x13, 8, hashed, rsig.sp_issuer(rkeys.keyid(raw)), {'key': pbody, 'uid': signed_text.encode('utf-8')})
+            except NotImplementedError:
+                break
+            for which, text, cls in (('the spelling that was signed', signed_text, 'same'), ('another spelling of the same name', carried_text, 'different')):
+                blob2 = rkeys.public_packet(raw) + wire.packet(13, text.encode('utf-8')) + wire.packet(2, sc)
+                try:
+                    k2 = pgpy.PGPKey.from_blob(blob2)[0]
+                    sv = k2.verify(k2.userids[0])
+                    verdict = 'truthy' if sv and len(list(sv.good_signatures)) == 1 else 'falsy'
+                except Exception as e:
+                    verdict = 'verify-error:' + type(e).__name__
+                if cls == 'same':
+                    r.states += 1
+                    r.transitions += 1
+                    r.outcomes['base:' + verdict.split(':')[0]] += 1
+                    if verdict != 'truthy':
+                        r.viol('base-rejected', {'scn': 'uid-spelling'}, case, 'self-certification over %r does not verify on a key carrying exactly that user id: %s' % (text, verdict))
+                else:
+                    self._judge(r, 'different', verdict, dict(tags, grp='uid-other-normalisation-form'), dict(case), 'self-certification made over %r carried by a key whose user id is %r' % (signed_text, text))
         # --- inside a key: swap parts between two certificates and re-import
         ka, _ = K.pgpy_cert(signer, uid='Carol One <c1@example.org>', subkeys=[('cv25519a', {KeyFlags.EncryptCommunications})])
         kb, _ = K.pgpy_cert('ed25519b' if signer != 'ed25519b' else 'ed25519a', uid='Dave Two <d2@example.org>', subkeys=[('cv25519b', {KeyFlags.EncryptCommunications})])
